@@ -925,10 +925,16 @@ func (ex *Exec) makeSlice(fr *Frame, x *ssa.MakeSlice) Value {
 	cp = ex.ext64(cp, x.Cap.Type())
 	ok := p.And(p.Bin("bvsle", p.BV(64, 0), ln), p.Bin("bvsle", ln, cp))
 	ex.require(ok, "makeslice: len out of range")
-	l, c := ex.concretise(ln, "make len"), ex.concretise(cp, "make cap")
 	et := x.Type().Underlying().(*types.Slice).Elem()
+	// the runtime refuses cap*elemsize above maxAlloc (1<<48 on linux/amd64) with a panic
+	if sz := goSizes.Sizeof(et); sz > 0 && !cp.isConst {
+		ex.require(p.Bin("bvsle", cp, p.BV(64, uint64((1<<48)/sz))), "makeslice: cap out of range")
+	}
+	l, c := ex.concretise(ln, "make len"), ex.concretise(cp, "make cap")
 	return ex.newSlice(et, l, c)
 }
+
+var goSizes = types.SizesFor("gc", "amd64")
 
 func (ex *Exec) newSlice(et types.Type, l, c int) *SliceV {
 	arr := &ArrayV{}
